@@ -46,6 +46,12 @@ T=[
  ("fx-template-newline-regex-literal","C04","59849a8","replays/C04/fixed/template-newline-regex-literal.json","a line terminator in a template literal type ended up raw inside the emitted regex literal: successful compilation, module does not load"),
  ("fx-override-ignored-for-du-variant","C16","b8c0e78","replays/C16/fixed/override-ignored-for-du-variant.json","a named type first reached as a discriminated-union variant was registered without its namedTypeSchemaOverrides entry (definition depended on call order)"),
  ("fx-named-reexport-self","C04","def0511","replays/C04/fixed/named-reexport-self.json","a named re-export leading back to itself (export { A as A } from \"./entry\" inside entry.ts) overflowed the stack during name resolution (SIGABRT)"),
+ ("fx-record-object-intersection-roundtrip","C07","5c6bed9","replays/C07/fixed/record-object-intersection-roundtrip.json","a record intersected with an object ({[k:string]: 0} & {a: string}) is materialised as an AllOf that does not convert back to the same semantic type (record/object intersection family)"),
+ ("fx-uninhabited-intersection-roundtrip","C07","5c6bed9","replays/C07/fixed/uninhabited-intersection-roundtrip.json","a union with a member made uninhabited by conflicting intersection members ({a: string} & {a: string; k: string} & {a: string; k: 0}) is materialised without that member, but the result does not convert back to the same semantic type (the engine does not see the member as empty consistently; see c05-uninhabited-intersection-in-union)"),
+ ("fx-uninhabited-intersection-in-union","C05","5c6bed9","replays/C05/fixed/uninhabited-intersection-in-union.json","a union that contains an uninhabited intersection (members with contradictory property types) is not recognised as carrying no values there: beff answers \"not assignable\" although every exact value of A is a value of B"),
+ ("fx-record-object-conflict","C05","5c6bed9","replays/C05/fixed/record-object-conflict.json","an intersection of a record / index-signature object with an object declaring a key of an incompatible type (Record<string,string> & {\"0\": 0}) is not recognised as empty: beff answers \"not assignable\" without a witness"),
+ ("fx-intersection-next-to-record","C05","5c6bed9","replays/C05/fixed/intersection-next-to-record.json","a union of an intersection with a named member and a record whose value type is that named type is not assignable to itself: type Alpha = {k: null}; ({\"a-b\": string; a: \"a\"} & Alpha) | {[k: string]: Alpha} extends itself is answered no (the inline-merged spelling is answered yes); generalises the uninhabited-intersection entry"),
+ ("fx-renamed-recursive-record-intersection","C05","5c6bed9","replays/C05/fixed/renamed-recursive-record-intersection.json","two renamings of one recursive type (type Alpha = {x: {[k: string]: number} & {a?: Alpha[]}}; Beta likewise) were not assignable to each other although each is assignable to itself (the record's index signature was ignored for the key a when the intersection was merged)"),
  ("fx-describe-empty-union","C15","1a46d80","replays/C15/fixed/empty-union-described-as-parens.json","describe() printed never | never as \"()\" (not parseable)"),
 ]
 p='/verif/known_findings.json'
